@@ -7,7 +7,7 @@ EXPLANATION = ("Static MIR rules on helpers::linear_extract: (R12.1) every Ok(()
                "export.get_mut(looked-up name), and every copy reads from take(src, arm's length); (R12.3) every path (constant-flag sensitive) "
                "through the FileContent arm back to the next block read passes an io::copy from that take value; (R12.4) names are registered "
                "only on the true edge of export.contains_key(filename) with the arm's id, and EndOfFile removes the arm's id; (R12.5) a rewind of "
-               "archive.src dominates the loop; (R12.6) the count of a raw write into a routed writer is used; (R12.7) the drain into io::sink() is reachable only on the edges where the block's id is not registered (constant-flag sensitive), so no early-stop shortcut skips a requested file. Byte equality with get_file is runtime and not decided.")
+               "archive.src dominates the loop; (R12.6) the count of a raw write into a routed writer is used; (R12.7) the drain into io::sink() is reachable only on the edges where the block's id is not registered (constant-flag sensitive), so no early-stop shortcut skips a requested file. (R12.8) the io::Result of every copy in linear_extract (closures included) is propagated, never reduced to a flag (is_ok / ok / unwrap_or ..) or dropped. Byte equality with get_file is runtime and not decided.")
 TRUSTED = ['rustc MIR', 'std::io::copy / Take semantics (copy drains the take)']
 ASSUMPTIONS = ['io::copy on a Take reads exactly `length` bytes unless the source ends (std semantics)']
 
@@ -25,6 +25,59 @@ def payload_src(body, local, variant, field):
                 return True
         return False
     return must_derive(body, local, is_src)
+
+
+RESULT_DISCARDING = ('is_ok', 'is_err', 'ok', 'err', 'unwrap_or', 'unwrap_or_default', 'unwrap_or_else', 'map_or', 'map_or_else', 'is_ok_and', 'is_err_and', 'drop',
+                     'unwrap_or_else', 'iter', 'into_iter')
+RESULT_KEEPING = ('map', 'map_err', 'inspect', 'inspect_err', 'and_then', 'or_else', 'into', 'from')
+
+
+def result_fate(body, local, depth=0):
+    """what becomes of the io::Result held in `local`: set of 'propagated' (Try::branch), 'returned' (moved into the return place), 'discarded:<method>',
+    'unused', 'other:<what>'"""
+    fates = set()
+    if depth > 8:
+        return {'other:depth'}
+    used = False
+    for bl in body.blocks:
+        if bl.cleanup:
+            continue
+        for st in bl.stmts:
+            if st.kind != 'assign' or st.rv is None:
+                continue
+            if any(pl[0] == local for pl in st.rv.src_places()):
+                if st.rv.r in ('use', 'cast') and not any(pl[1] for pl in st.rv.src_places() if pl[0] == local):
+                    used = True
+                    if st.place == (0, ()):
+                        fates.add('returned')
+                    elif not st.place[1]:
+                        fates |= result_fate(body, st.place[0], depth + 1)
+                    else:
+                        fates.add('other:stored')
+                elif st.rv.r == 'discriminant' or any(pl[1] for pl in st.rv.src_places() if pl[0] == local):
+                    used = True
+                    fates.add('other:matched')
+                elif st.rv.r == 'ref':
+                    used = True
+                    if not st.place[1]:
+                        fates |= result_fate(body, st.place[0], depth + 1)
+        t = bl.term
+        if t.kind == 'call' and any(a.place is not None and a.place[0] == local and not a.place[1] for a in t.args):
+            used = True
+            if t.cmethod == 'branch' and t.ctrait == 'std::ops::Try':
+                fates.add('propagated')
+            elif t.cmethod in RESULT_DISCARDING:
+                fates.add('discarded:' + t.cmethod)
+            elif t.cmethod in RESULT_KEEPING and t.dest is not None and not t.dest[1]:
+                if t.dest == (0, ()):
+                    fates.add('returned')
+                else:
+                    fates |= result_fate(body, t.dest[0], depth + 1)
+            else:
+                fates.add('other:' + t.cmethod)
+    if not used:
+        fates.add('unused')
+    return fates
 
 
 def routed_through_and_then(prog, body, wlocal, gets, copy_blk):
@@ -201,6 +254,21 @@ def run(prog, rep, tier):
                'is lost although Ok(()) is returned', body.loc(wb.idx))
     if cnt_w == 0:
         rep.ob('R12.6', True, 'R12.6|%s|no-raw-write' % body.nkey, 'no raw Write::write in linear_extract: transfers go through io::copy / write_all', body.loc())
+    # R12.8 "success means every chosen file got exactly its bytes": the outcome of each transfer into a destination decides the outcome of the call --
+    # the io::Result of a copy is propagated (`?` / returned), never reduced to a flag or dropped (is_ok, ok, unwrap_or, `let _ =`)
+    n8 = 0
+    for cb_, c in [(body, c) for c in copies] + [(cl, b) for cl in prog.closures_of(body) for b in cl.calls() if cnorm(b.term) == 'std::io::copy']:
+        if c.term.dest is None or c.term.dest[1]:
+            continue
+        n8 += 1
+        fates = result_fate(cb_, c.term.dest[0])
+        bad8 = sorted(f for f in fates if f.startswith('discarded') or f == 'unused')
+        if cb_ is not body:
+            rep.fn(cb_)
+        rep.ob('R12.8', not bad8, 'R12.8|%s|copy#%d|copy-result-decides-the-outcome' % (body.nkey, n8 - 1),
+               'the io::Result of the copy is propagated (%s)' % ', '.join(sorted(fates)) if not bad8 else
+               'the io::Result of a copy into a destination is %s: when the destination fails, linear_extract goes on and can return Ok(()) although a chosen file is incomplete'
+               % ', '.join(bad8), cb_.loc(c.idx))
     # R12.7 a block of a registered file is never drained: the copy into io::sink() is reachable only through a None outcome of the lookups
     # (id -> name, name -> writer); no other condition (a counter, a flag set elsewhere) can divert a registered block to the sink
     sinks = [c for c in copies if 'Sink' in c.term.cargs.split(',')[-1]]
